@@ -127,7 +127,7 @@ h("VerifCrashPutCasZstd", D, CR, CRB % 14, "kill during an upload (compressed CA
 
 CF = "./config"
 CFF = ["zz_verif_config.go"]
-h("VerifValidateConfigRefuses", CF, CFF, "every plain setting an arbitrary ASCII string / integer / boolean; one invalid class assumed at a time (12 classes)", "validateConfig returns an error for every completion of the other settings", strings=True)
+h("VerifValidateConfigRefuses", CF, CFF, "12 invalid classes, one at a time; the settings of the class arbitrary within it, the sizes, the TLS/htpasswd file settings and allow_unauthenticated_reads arbitrary, the remaining settings fixed valid values", "validateConfig returns an error for every completion of the other settings", strings=True)
 h("VerifValidateConfigAccepts", CF, CFF, "-", "a minimal sane configuration is accepted; the same with a port conflict is refused", strings=True)
 
 # property -> (quick harnesses, additional thorough harnesses, assumptions, outside)
